@@ -588,7 +588,8 @@ HEXU = st.one_of(st.sampled_from(["0x180F", "0x180f", "0xFE9F", "0x2A19"]), st.i
 @st.composite
 def _adv(draw, tier):
     legacy = draw(st.integers(0, 3)) == 0
-    datas = st.binary(min_size=1, max_size=8).map(bytes.hex)
+    # payloads may be empty: a manufacturer-specific element consisting of the company id only is legal BLE
+    datas = st.one_of(st.binary(min_size=1, max_size=8), st.binary(min_size=0, max_size=2)).map(bytes.hex)
     sd = draw(st.lists(st.tuples(HEXU, datas), max_size=3, unique_by=lambda t: t[0].lower()))
     md = draw(st.lists(st.tuples(st.integers(0, 0xFFFF).map(lambda x: "0x%04X" % x), datas), max_size=3, unique_by=lambda t: t[0]))
     return {"kind": "adv", "spec": {
